@@ -67,8 +67,48 @@ class ND(generic.Desc):
         return {"new", "body", "wait", "free", "overrun", "wait_after_free"}
 
 
+def apalache_induction():
+    """Unbounded model-level argument: IndInv (alarm on the grid, k-th wait not before t0+k*P) is inductive for any
+    period 1..100 ms, any body <= 10 s, any number of waits.  An extra: if Apalache cannot be run the check goes on."""
+    import os
+    import shutil
+    import subprocess
+    from . import tlc
+    if shutil.which("apalache-mc") is None:
+        return {"ran": False, "why": "apalache-mc not on PATH"}
+    wd = tlc.workdir("apalache")
+    for n in ("NotifierDelayCore.tla", "ND_Ind.tla"):
+        shutil.copy(os.path.join(tlc.SPECS, n), wd)
+    res = {"ran": True}
+
+    def run(init, length, cinit="ConstInit"):
+        p = subprocess.run(["apalache-mc", "check", "--cinit=" + cinit, "--init=" + init, "--next=INext", "--inv=IndInv",
+                            "--length=%d" % length, "--out-dir=" + os.path.join(wd, "out"), "ND_Ind.tla"],
+                           cwd=wd, stdout=subprocess.PIPE, stderr=subprocess.STDOUT, text=True, timeout=900)
+        return "EXITCODE: OK" in p.stdout, p.stdout[-600:]
+    try:
+        ok0, o0 = run("Init", 0)
+        ok1, o1 = run("IndInit", 1)
+    except Exception as e:  # noqa
+        return {"ran": False, "why": "apalache failed to run: %s" % e}
+    res["init_implies_inv"] = ok0
+    res["inv_is_inductive"] = ok1
+    if not (ok0 and ok1):
+        if "error" in (o0 + o1).lower() and "counterexample" not in (o0 + o1).lower() and "violat" not in (o0 + o1).lower():
+            return {"ran": False, "why": "apalache error", "tail": (o0 + o1)[-400:]}
+        raise MachineryError("Apalache: the inductive invariant of NotifierDelay does not hold\n%s\n%s" % (o0, o1))
+    return res
+
+
 def check(prop, tier):
-    return generic.run_check(ND(), prop, tier)
+    import concurrent.futures as cf
+    with cf.ThreadPoolExecutor(max_workers=1) as ex:
+        fut = ex.submit(apalache_induction)
+
+        class WithApalache(ND):
+            def extras(self, prop, tier, out):
+                out.notes["apalache_inductive_invariant"] = fut.result(timeout=1500)
+        return generic.run_check(WithApalache(), prop, tier)
 
 
 def replay(path):
